@@ -592,7 +592,9 @@ type semArgs struct {
 // errFrom fails before it has consumed anything: the error belongs to the value that is next.
 type errFrom struct{ X int }
 
-func (*errFrom) UnmarshalJSONFrom(*jsontext.Decoder) error { return errors.New("errFrom never accepts") }
+func (*errFrom) UnmarshalJSONFrom(*jsontext.Decoder) error {
+	return errors.New("errFrom never accepts")
+}
 
 // types whose every value is refused BEFORE it is read (unsupported kinds, a method that fails at once)
 var refusedBeforeTypes = []reflect.Type{reflect.TypeFor[errFrom](), reflect.TypeFor[chan int](), reflect.TypeFor[func()](), reflect.TypeFor[complex128](), reflect.TypeFor[*errFrom]()}
@@ -848,6 +850,7 @@ func main() {
 	run.Def(M, "pointer", runPointer)
 	run.Def(M, "syntactic", runSyntactic)
 	run.Def(M, "semantic", runSemantic)
+	run.Def(M, "marshal-semantic", runMarshalSemantic)
 	M.Gen = generate
 	run.Main(M)
 }
@@ -893,6 +896,7 @@ func generate(w *run.W) {
 			}
 			w.Do("syntactic", &synArgs{Input: bad, Chunk: []int{0, 1, 3, 16}[r.IntN(4)], Inv: r.IntN(4) == 0, Dup: r.IntN(6) == 0})
 			w.Do("semantic", &semArgs{Seed: r.Uint64()})
+			w.Do("marshal-semantic", &msArgs{Seed: r.Uint64()})
 		}
 		// pointers
 		n := r.IntN(5)
